@@ -9,6 +9,8 @@ SYMX = ("bounded symbolic execution of the real norminette code (symx: import-ho
 TRUST = ("z3 5.1; CPython; the symx proxies/rewriter (cross-validated on sampled witnesses of every explored class against the "
          "native implementation); the independent oracle named in the evidence; bounds as listed in the evidence file")
 CHECKS = {
+ "C01": dict(text="Every member of the conforming-program family (micro skeletons with every operator slot symbolic + generated .c/.h programs with symbolic identifier/constant/literal/operator slots) is analysed by the real pipeline on symbolic text; on every path class: no Error-level diagnostic, no fatal error, no exception.",
+             ref="4.1", tech="symbolic execution of the whole pipeline (Lexer + Registry.run + all rules) on program text with symbolic slots (symx + z3)"),
  "C05": dict(text="Tokenizer totality by one-step induction: for every window of <=N symbolic ASCII characters and every start position one get_next_token() call returns and raises nothing (solver-decided per path class).",
              ref="4.5", tech="symbolic execution of Lexer.get_next_token (symx + z3), one-step induction over the token stream"),
  "C09": dict(text="Token/end/diagnostic positions equal an independent position scanner for every window of <=N symbolic characters and every symbolic start (line, col); induction over tokens extends it to whole files.",
